@@ -581,6 +581,12 @@ func c14Invocation(t *Tape, tc *TreeCase, kind string) *c07Case {
 		toks := tc.Tokens[c.Level]
 		pos := t.Draw(len(toks) + 1)
 		tc.Tokens[c.Level] = append(append(append([]string{}, toks[:pos]...), c.HelpTok), toks[pos:]...)
+		if c.Level+1 < len(tc.Path) && t.Draw(5) == 0 {
+			// a second help token, of the other spelling, further down the path: the first one decides
+			lower := c.Level + 1 + t.Draw(len(tc.Path)-c.Level-1)
+			other := map[string]string{"-h": "--help", "--help": "-h"}[c.HelpTok]
+			tc.Tokens[lower] = append(tc.Tokens[lower], other)
+		}
 		if c.Level == 0 && t.Draw(4) == 0 {
 			// a declared version flag right behind the help token: not in first position, so it is no version request
 			tc.App.Version = []string{"V version", "8.8.8-sim"}
@@ -615,8 +621,11 @@ func c14Invocation(t *Tape, tc *TreeCase, kind string) *c07Case {
 	case "version":
 		names := []string{"V version", "V W version", "version ver", "W"}[t.Draw(4)]
 		tc.App.Version = []string{names, "v" + fmt.Sprint(1+t.Draw(9)) + ".2.3-sim"}
-		if t.Draw(6) == 0 {
+		switch t.Draw(8) {
+		case 0:
 			tc.App.Version[1] = "" // a development build whose version variable was left unset
+		case 1:
+			tc.App.Version[1] = []string{"2.0.0-rc1 (100% static)", "build%20tag/7", "%d%s%v", "1.0%"}[t.Draw(4)]
 		}
 		c.VersionText = tc.App.Version[1]
 		c.Level = 0
